@@ -350,6 +350,9 @@ def run(ctx):
     for i in range(ctx.q(2, 8)): jobs.append(dict(common, kind='observer', cfg='asan' if i % 2 else 'plain', seed=ctx.seed * 1000 + 700 + i))
     for i in range(ctx.q(16, 48)): jobs.append(dict(common, kind='duel', cfg='plain', seed=ctx.seed * 1000 + 800 + i, nproc=2 + (i % 2), rounds=ctx.q(30, 60), delay_p=[0.3, 0.6][i % 2], delay_us=[50, 200, 800][i % 3]))
     for part in pmap(dispatch, jobs, max(2, ctx.nproc // 3)): ctx.merge(part)
+    # the next call of a process whose reload of the changed object FAILS on a file-system error may fail, but must not answer from the stale copy, and the call after it observes the committed state
+    import twoproc
+    ctx.extra['two_process_fault_cells'] = {a: twoproc.stale_view_under_faults(ctx, 'file', a) for a in ('modify', 'destroy')}
     ctx.rule = ('(i) one evaluation = one serialised interleaving of 2-3 processes x 1-3 calls (create/set/destroy/find/get on shared labels), distinct = (operation/existence shape, process order); '
                 '(ii) one evaluation = one concurrent run of 2-3 processes (30-50 script steps each) with PRNG delays at FS operations, checked by a history checker (unique written values, per-object register rule, conservation of objects); '
                 'non-trivial when at least one write committed; (iii) duels: rounds in which all processes start a C_CreateObject simultaneously (PRNG delays before record locks and at FS operations) and then only search: a search that begins after another create returned must find the object')
